@@ -333,7 +333,8 @@ fn app_thread(server: std::sync::Arc<Server>, script: Vec<Action>, tx: mpsc::Sen
                 let mut buf = vec![0u8; std::cmp::max(1, a.buf)];
                 while got < a.read_total {
                     let want = std::cmp::min(buf.len(), a.read_total - got);
-                    match reader.read(&mut buf[..want]) {
+                    // odd request sizes go through `read_vectored` with one buffer: the same read
+                    match if want % 2 == 1 { reader.read_vectored(&mut [std::io::IoSliceMut::new(&mut buf[..want])]) } else { reader.read(&mut buf[..want]) } {
                         Ok(0) => {
                             end = "eof";
                             break;
@@ -479,7 +480,7 @@ pub struct Timing {
 
 impl Default for Timing {
     fn default() -> Self {
-        Timing { quiet_ms: 120, deadline_ms: 4000, seg_pause_us: 1500 }
+        Timing { quiet_ms: 250, deadline_ms: 12000, seg_pause_us: 1500 }
     }
 }
 
@@ -639,7 +640,7 @@ pub fn run_case(id: u64, c: &ConnCase, tmpdir: &str, tm: &Timing) -> String {
             last_activity = Instant::now();
         } else if c.mode == Mode::Open && last_activity.elapsed() > Duration::from_millis(tm.quiet_ms) {
             break;
-        } else if c.mode == Mode::HalfClose && last_activity.elapsed() > Duration::from_millis(tm.quiet_ms * 8) {
+        } else if c.mode == Mode::HalfClose && last_activity.elapsed() > Duration::from_millis(std::cmp::max(tm.quiet_ms * 8, 4000)) {
             // nothing for a long while although we half-closed: the server is stuck
             break;
         }
@@ -688,7 +689,9 @@ pub fn run_case(id: u64, c: &ConnCase, tmpdir: &str, tm: &Timing) -> String {
                 break;
             }
             Err(mpsc::RecvTimeoutError::Timeout) => {
-                if t_collect.elapsed() > Duration::from_millis(300) {
+                // generous: it only costs time when the application really hangs, and a loaded
+                // machine must not turn a slow thread into a reported hang
+                if t_collect.elapsed() > Duration::from_millis(3000) {
                     hang = true;
                     break;
                 }
